@@ -336,8 +336,17 @@ def main():
     return rc
 
 
+def _uniq(xs):
+    seen, out = set(), []
+    for x in xs:
+        if x and x not in seen:
+            seen.add(x); out.append(x)
+    return out
+
+
 def write_evidence(plan, tier, seed, t0, violations, machinery, known_hit):
     obs = plan.obs
+    plan.dropped, plan.assumptions, plan.trusted, plan.functions = _uniq(plan.dropped), _uniq(plan.assumptions), _uniq(plan.trusted), _uniq(plan.functions)
     known_names = {o.name for o in known_hit}
     proved = [o for o in obs if o.level == "proved" and o.name not in known_names]
     bounded = [o for o in obs if o.level == "bounded" and o.name not in known_names]
